@@ -14,7 +14,7 @@ IMPORTS = ("From Coq Require Import ZArith List String.\n"
 PROPS = ["C04/Props.v"]
 DRIVER = "c04_driver.py"
 CLAUSE = {1: "invalid-element-stored", 2: "illegal-length", 3: "trait-error-not-inert", 4: "builtin-error-not-inert",
-          5: "rejected-value-not-refused"}
+          5: "rejected-value-not-refused", 6: "start-value-violates-invariant"}
 KINDS = {
     "list": ("corr_list", "law_list", "C04.Corr.lcase"),
     "set": ("corr_set", "law_set", "C04.Corr.scase"),
@@ -99,8 +99,8 @@ def set_term(case, obs):
 
 
 def gen_set(rnd, ctx, maxops):
-    vk = rnd.choice(["VAll", "VInt", "VCInt", "VCInt"])
-    valid = list(range(6)) + ([101, 103, 200, 201] if vk == "VAll" else [])
+    vk = rnd.choice(["VAll", "VInt", "VCInt", "VCInt", "VInc"])
+    valid = list(range(1, 7)) + ([101, 103, 200, 201] if vk == "VAll" else [])
     init = rnd.sample(valid, rnd.randint(0, min(5, len(valid))))
     universe = list(range(7)) + [100, 101, 102, 103, 104, 105, 200, 201]
 
@@ -163,10 +163,10 @@ def dict_term(case, obs):
 
 
 def gen_dict(rnd, ctx, maxops):
-    kk = rnd.choice(["VAll", "VInt", "VCInt", "VCInt"])
-    vk = rnd.choice(["VAll", "VInt", "VCInt"])
-    keys = list(range(5))
-    init = [[k, rnd.randint(0, 9)] for k in rnd.sample(keys, rnd.randint(0, 4))]
+    kk = rnd.choice(["VAll", "VInt", "VCInt", "VCInt", "VInc"])
+    vk = rnd.choice(["VAll", "VInt", "VCInt", "VInc"])
+    keys = list(range(1, 6))
+    init = [[k, rnd.randint(1, 9)] for k in rnd.sample(keys, rnd.randint(0, 4))]
     uni = list(range(6)) + [100, 101, 102, 103, 200, 201]
 
     def key():
@@ -239,7 +239,7 @@ def nested_term(case, obs):
 
 
 def gen_nested(rnd, ctx, maxops):
-    vk = rnd.choice(["VInt", "VCInt", "VCInt", "VAll"])
+    vk = rnd.choice(["VInt", "VCInt", "VCInt", "VAll", "VInc"])
     ib = rnd.choice([(0, None), (0, None), (0, 2), (1, 3), (1, None), (2, 2), (0, 3)])
     ob = rnd.choice([(0, None), (0, None), (0, 2), (1, 3), (1, None), (0, 3)])
 
@@ -261,7 +261,7 @@ def gen_nested(rnd, ctx, maxops):
         return [rnd.randint(0, 9) for _ in range(rnd.choice([0, 1, 2, 3, 4, 5]))]   # possibly illegal length
 
     n0 = rnd.randint(ob[0], ob[1] if ob[1] is not None else ob[0] + 3)
-    init = [valid_inner() for _ in range(n0)]
+    init = [[max(a, 1) for a in valid_inner()] for _ in range(n0)]
     n = n0
     ops = []
     for _ in range(rnd.randint(1, maxops)):
@@ -308,14 +308,30 @@ def gen_nested(rnd, ctx, maxops):
 
 
 # ---------------------------------------------------------------- Dict(Str, List(Int)): law only
+def ndop_term(op):
+    k = op[0]
+    if k in ("SetItem", "SetDefault"):
+        return C("ND" + k, op[1], raw_term(op[2]))
+    if k in ("Update", "Assign"):
+        return C("ND" + k, [(a, raw_term(r)) for a, r in op[1]])
+    if k in ("DelItem", "Pop"):
+        return C("ND" + k, op[1])
+    if k == "Clear":
+        return C("NDClear")
+    if k == "Inner":
+        return C("NDInner", op[1], c05.op_term(op[2]))
+    raise ValueError(op)
+
+
 def ndict_term(case, obs):
-    h = [(out_l(ob["out"]), [(k, list(v)) for k, v in ob["after"]], Nat(ob["nev"]), bool(op[-1]))
+    h = [(ndop_term(op), C("mkND", out_l(ob["out"]), [(k, list(v)) for k, v in ob["after"]], Nat(ob["nev"])))
          for op, ob in zip(case["ops"], obs)]
-    return (C("VAll"), C("VInt"), (case["ib"][0], opt(case["ib"][1])), [(k, list(v)) for k, v in sorted(case["init"])], h)
+    return (C(case.get("vk", "VInt")), (case["ib"][0], opt(case["ib"][1])), [(k, list(v)) for k, v in case["init"]], h)
 
 
 def gen_ndict(rnd, ctx, maxops):
     ib = rnd.choice([(0, None), (0, 2), (1, 3), (1, None), (0, 3)])
+    vk = rnd.choice(["VInt", "VInt", "VCInt", "VInc"])
 
     def valid_inner():
         hi = ib[1] if ib[1] is not None else ib[0] + 3
@@ -338,7 +354,7 @@ def gen_ndict(rnd, ctx, maxops):
         v = [rnd.randint(0, 9) for _ in range(rnd.choice([0, 1, 2, 3, 4, 5]))]
         return v, not (ib[0] <= len(v) and (ib[1] is None or len(v) <= ib[1]))
 
-    init = [[100 + j, valid_inner()] for j in rnd.sample(range(5), rnd.randint(0, 3))]
+    init = [[100 + j, [max(a, 1) for a in valid_inner()]] for j in rnd.sample(range(5), rnd.randint(0, 3))]
     present = [k for k, _ in init]
     ops = []
     for _ in range(rnd.randint(1, maxops)):
@@ -370,15 +386,15 @@ def gen_ndict(rnd, ctx, maxops):
             op = [k, False]
         else:
             cur = [0, 1, 2]
-            iop = c05.gen_op(rnd, "VInt", cur)
+            iop = c05.gen_op(rnd, vk, cur)
             while iop[0] == "Imul" and abs(iop[1]) > 3:
-                iop = c05.gen_op(rnd, "VInt", cur)
+                iop = c05.gen_op(rnd, vk, cur)
             offered = {"SetInt": [iop[-1]], "Append": [iop[-1]], "Insert": [iop[-1]], "SetSlice": iop[-1],
                        "Extend": iop[-1], "Iadd": iop[-1]}.get(iop[0], [])
             op = [k, okey(), iop, any(not (0 <= a < 100) for a in offered)]
         ops.append(op)
         ctx.count("op:ndict." + k)
-    return dict(kind="ndict", ib=list(ib), init=init, ops=ops)
+    return dict(kind="ndict", vk=vk, ib=list(ib), init=init, ops=ops)
 
 
 TERMS = {"list": list_term, "set": set_term, "dict": dict_term, "nested": nested_term, "ndict": ndict_term}
@@ -499,7 +515,7 @@ def run(ctx):
                        "case is non-trivial if some step raises; distinct = distinct JSON of the case")
     rnd = random.Random(ctx.seed)
     quick = ctx.tier == "quick"
-    counts = dict(list=(700, 12, 8), set=(350, 10), dict=(400, 10), nested=(400, 10), ndict=(250, 10)) if quick else \
+    counts = dict(list=(1100, 12, 8), set=(500, 10), dict=(600, 10), nested=(600, 10), ndict=(450, 10)) if quick else \
         dict(list=(12000, 30, 20), set=(6000, 25), dict=(8000, 25), nested=(8000, 25), ndict=(5000, 25))
     if ctx.replay:
         rep = json.load(open(ctx.replay))["replay"]
@@ -518,10 +534,25 @@ def run(ctx):
             continue
         ctx.sample(cases[0])
         ctx.count("cases:" + kind, len(cases))
-        rel = ("C04.Corr.%s (model = implementation on every step)" % KINDS[kind][0]) if kind != "ndict" else \
-            "C04.Corr.law_ndict (law only: Dict(Str, List(Int)) has no model)"
+        rel = "C04.Corr.%s (model = implementation on every step)" % KINDS[kind][0]
         hist.run(ctx, DRIVER, cases, TERMS[kind], header(kind), KINDS[kind][2], key_fn, describe, nontrivial,
                  relation=rel, tag="c04" + kind)
     if not ctx.replay:
+        # single-operation grid on bounded List traits (the C05 grid, model and law of C04): every mutator x every
+        # index / slice x every replacement list on lists at, below and above their bounds
+        if quick:
+            cfgs = [dict(target="obj", vk=rnd.choice(["VInt", "VCInt"]), n=n, minlen=mn, maxlen=mx)
+                    for (n, mn, mx) in ((1, 1, 2), (2, 0, 2), (3, 2, 4))]
+            gb, gbs = 2, 250
+        else:
+            cfgs = [dict(target="obj", vk=vk, n=n, minlen=mn, maxlen=mx)
+                    for vk in ("VInt", "VCInt")
+                    for (n, mn, mx) in ((0, 0, 0), (0, 0, 2), (1, 1, 1), (1, 0, 3), (2, 2, 2), (2, 1, 3), (2, 0, None),
+                                        (3, 3, 3), (3, 1, 4), (3, 2, None), (4, 0, 4), (4, 3, 5), (5, 5, 5), (5, 2, 6))]
+            gb, gbs = 6, 500
+        c05.run_grid(ctx, cfgs, gb, gbs, "C04 single-operation grid on bounded List traits",
+                     hist_kw=dict(to_term=TERMS["list"], header=header("list"), case_type=KINDS["list"][2],
+                                  key_fn=key_fn, describe=describe, nontrivial=nontrivial),
+                     mk_case=lambda c: dict(c, kind="list"), driver=DRIVER)
         mutator_obligation(ctx)
     proof_gate(ctx, ok, log, PROPS)
